@@ -49,7 +49,7 @@ func (s *scBuilder) empty(n int) {
 	}
 }
 
-var scenarioNames = []string{"govupdate", "alleg2", "govexpire", "stakecycle", "olvmmix", "ethlock"}
+var scenarioNames = []string{"govupdate", "alleg2", "govexpire", "stakecycle", "olvmmix", "ethlock", "bidflow"}
 
 // the genesis variant a scenario needs
 func scenarioGenesis(name string) string {
@@ -180,10 +180,114 @@ func scenarioHistory(name string, w *World) *History {
 		s.empty(1)
 		report(redeem, u0)
 		s.empty(3)
+	case "bidflow":
+		// the bid external app: conversations about ONS domains and the example asset through every
+		// transition — counter offer, further offer, accept / reject by either side, cancel, the public
+		// expire transaction, and expiry through the block hooks (queued at BeginBlock, internal
+		// transaction at EndBlock), with refused transactions of every kind in between
+		u3, u4 := w.Users[3], w.Users[4]
+		o := func(x string) action.Amount { return oltAmt(x + "000000000000000000") }
+		dprice := oltAmt("1002000000000000000000")
+		s.empty(2)
+		// height 3
+		s.block([][]byte{txDomainCreate(u0, "bf1.ol", dprice, s.memo()), txDomainCreate(u0, "bf2.ol", dprice, s.memo()),
+			txDomainCreate(u0, "bf3.ol", dprice, s.memo()), txDomainCreate(u1, "bf4.ol", dprice, s.memo())}, "domain create", "domain create", "domain create", "domain create")
+		c := bidflowConvs(w)
+		near := bidBlockTime(11) + 1 // passes between the blocks 11 and 12
+		// height 4: eight conversations, and refused attempts
+		s.block([][]byte{
+			txBidCreate(u1, u0.Addr, "bf1.ol", bidOns, o("5"), bidFar, s.memo()),
+			txBidCreate(u2, u0.Addr, "bf1.ol", bidOns, o("3"), bidFar, s.memo()),
+			txBidCreate(u3, u0.Addr, "bf2.ol", bidOns, o("4"), bidFar, s.memo()),
+			txBidCreate(u2, u1.Addr, "bf4.ol", bidOns, o("6"), bidFar, s.memo()),
+			txBidCreate(u4, u0.Addr, "bf3.ol", bidOns, o("2"), near, s.memo()),
+			txBidCreate(u3, u0.Addr, "thing", bidExample, o("2"), near, s.memo()),
+			txBidCreate(u3, u0.Addr, "bf1.ol", bidOns, o("1"), bidFar, s.memo()),
+			txBidCreate(u4, u0.Addr, "thing2", bidExample, o("1"), near, s.memo()),
+			txBidCreate(u1, u0.Addr, "bf1.ol", bidOns, o("6"), bidFar, s.memo()),                                 // the same conversation again
+			txBidCreate(u1, u0.Addr, "bf2.ol", bidOns, o("6"), bidBlockTime(3), s.memo()),                        // deadline in the past
+			txBidCreate(u1, u0.Addr, "nosuch.ol", bidOns, o("6"), bidFar, s.memo()),                              // no such domain
+			txBidCreate(u1, u2.Addr, "bf2.ol", bidOns, o("6"), bidFar, s.memo()),                                 // not the owner
+			txBidCreate(u1, u0.Addr, "bf3.ol", bidOns, oltAmt("9000000000000000000000000000"), bidFar, s.memo()), // more than the bidder has
+		}, "bidcreate c1", "bidcreate c2", "bidcreate c3", "bidcreate c4", "bidcreate c5 near", "bidcreate c6 example near", "bidcreate c7", "bidcreate c8 example near",
+			"bidcreate duplicate", "bidcreate past", "bidcreate nodomain", "bidcreate notowner", "bidcreate toomuch")
+		// height 5: counter offers
+		s.block([][]byte{
+			txBidCounter(u0, c[1], o("9"), s.memo()), txBidCounter(u0, c[2], o("8"), s.memo()), txBidCounter(u0, c[6], o("9"), s.memo()),
+			txBidCounter(u2, c[3], o("9"), s.memo()),          // not the owner
+			txBidCounter(u0, c[3], o("3"), s.memo()),          // not above the bid
+			txBidOwnerDecision(u0, c[1], bidAccept, s.memo()), // no bid offer is active any more
+		}, "bidcounter c1", "bidcounter c2", "bidcounter c6", "bidcounter notowner", "bidcounter low", "bidownerdecision nobid")
+		// height 6: further offers
+		s.block([][]byte{
+			txBidOffer(u1, c[1], o("7"), s.memo()),
+			txBidOffer(u2, c[2], o("8"), s.memo()),             // not below the counter offer
+			txBidOffer(u3, c[3], o("5"), s.memo()),             // no counter offer to answer
+			txBidBidderDecision(u1, c[1], bidAccept, s.memo()), // no counter offer is active any more
+		}, "bidoffer c1", "bidoffer high", "bidoffer nocounter", "bidbidderdecision nocounter")
+		// height 7
+		s.block([][]byte{txBidCounter(u0, c[1], o("8"), s.memo()), txBidBidderDecision(u2, c[2], bidReject, s.memo()), txSend(u0, u1.Addr, oltAmt("1000000000000"), s.memo())},
+			"bidcounter c1", "bidbidderdecision reject c2", "send")
+		// height 8: the bidder accepts (bf1.ol changes hands)
+		s.block([][]byte{
+			txBidBidderDecision(u1, c[1], 3, s.memo()),         // no such decision
+			txBidBidderDecision(u2, c[1], bidAccept, s.memo()), // not the bidder
+			txBidBidderDecision(u1, c[1], bidAccept, s.memo()),
+			txBidBidderDecision(u2, c[2], bidReject, s.memo()), // closed (rejected)
+			txBidBidderDecision(u1, c[1], bidAccept, s.memo()), // closed (succeeded)
+		}, "bidbidderdecision badvalue", "bidbidderdecision notbidder", "bidbidderdecision accept c1", "bidbidderdecision closed", "bidbidderdecision closed")
+		// height 9: the owner accepts (bf2.ol changes hands) and rejects; bf1.ol has another owner now
+		s.block([][]byte{
+			txBidOwnerDecision(u0, c[3], 0, s.memo()),
+			txBidOwnerDecision(u0, c[3], bidAccept, s.memo()),
+			txBidOwnerDecision(u1, c[4], bidReject, s.memo()),
+			txBidOwnerDecision(u0, c[7], bidAccept, s.memo()),                    // the asset is no longer the owner's
+			txBidCreate(u2, u1.Addr, "bf4.ol", bidOns, o("2"), bidFar, s.memo()), // a new conversation after the rejected one (c9)
+			txDomainUpdate(u1, "bf1.ol", u1.Addr, true, s.memo()),
+			txBidCreate(u3, u1.Addr, "bf4.ol", bidOns, o("1"), bidFar, s.memo()), // c11
+		}, "bidownerdecision badvalue", "bidownerdecision accept c3", "bidownerdecision reject c4", "bidownerdecision staleasset", "bidcreate c9", "domain update", "bidcreate c11")
+		// height 10: cancel, and the public expire transaction on a conversation that has not expired
+		s.block([][]byte{
+			txBidCancel(u4, c[7], s.memo()), // not the bidder
+			txBidCancel(u3, c[7], s.memo()),
+			txBidCancel(u3, c[7], s.memo()), // closed
+			txBidExpire(u4, c[9], s.memo()),
+			txBidCounter(u1, c[9], o("9"), s.memo()), // expired
+		}, "bidcancel notbidder", "bidcancel c7", "bidcancel closed", "bidexpire public c9", "bidcounter expired")
+		// height 11: the last bid transaction before the block in which conversations expire CLOSES one (the
+		// conversation store object, shared by all connections, was last pointed at the store of cancelled ones)
+		s.block([][]byte{txBidCancel(u3, c[11], s.memo())}, "bidcancel c11")
+		// height 12: c5, c6 and c8 are past their deadline: queued at BeginBlock, expired at EndBlock; c8 is
+		// expired by a public transaction of this very block first (the internal one then fails)
+		s.block([][]byte{
+			txBidCancel(u4, c[5], s.memo()),                    // past the deadline
+			txBidCounter(u0, c[5], o("9"), s.memo()),           // past the deadline
+			txBidBidderDecision(u3, c[6], bidAccept, s.memo()), // past the deadline
+			txBidExpire(u2, c[8], s.memo()),
+			txSend(u1, u2.Addr, oltAmt("1000000000000"), s.memo()),
+		}, "bidcancel late", "bidcounter late", "bidbidderdecision late", "bidexpire public c8", "send")
+		s.empty(1)
+		// height 14: everything is closed; the unlocked amounts can be spent
+		s.block([][]byte{
+			txBidCancel(u4, c[5], s.memo()), txBidExpire(u2, c[6], s.memo()),
+			txBidCreate(u4, u0.Addr, "bf3.ol", bidOns, o("3"), bidFar, s.memo()), // a new conversation about the same asset (c10)
+			txSend(u4, u0.Addr, o("900000"), s.memo()),
+		}, "bidcancel closed", "bidexpire closed", "bidcreate c10", "send")
+		s.empty(2)
 	default:
 		panic("unknown scenario " + name)
 	}
 	return s.h
+}
+
+// bidflowConvs: the ids of the conversations of scenario "bidflow" (index = the number in its descriptions)
+func bidflowConvs(w *World) []string {
+	u0, u1, u2, u3, u4 := w.Users[0], w.Users[1], w.Users[2], w.Users[3], w.Users[4]
+	return []string{"",
+		bidConvID(u0.Addr, "bf1.ol", u1.Addr, 4), bidConvID(u0.Addr, "bf1.ol", u2.Addr, 4), bidConvID(u0.Addr, "bf2.ol", u3.Addr, 4),
+		bidConvID(u1.Addr, "bf4.ol", u2.Addr, 4), bidConvID(u0.Addr, "bf3.ol", u4.Addr, 4), bidConvID(u0.Addr, "thing", u3.Addr, 4),
+		bidConvID(u0.Addr, "bf1.ol", u3.Addr, 4), bidConvID(u0.Addr, "thing2", u4.Addr, 4), bidConvID(u1.Addr, "bf4.ol", u2.Addr, 9),
+		bidConvID(u0.Addr, "bf3.ol", u4.Addr, 14), bidConvID(u1.Addr, "bf4.ol", u3.Addr, 9)}
 }
 
 func init() { subcmds["scenario"] = scenarioMain }
